@@ -3,6 +3,9 @@ import VlsModel.Gen.FnTxUtil
 import VlsModel.Gen.FnTxInfo
 import VlsModel.Gen.FnChannel
 import VlsModel.Gen.FnChannelOic
+import VlsModel.Gen.FnChannelCommit
+import VlsModel.Gen.FnSimpleDecode
+import VlsModel.Gen.FnTxInfo2
 import VlsModel.Gen.FnFilterC04
 import VlsModel.Model.Bolt3Filter
 import VlsModel.Lemmas.FnGen
@@ -243,5 +246,552 @@ theorem C04_fn_policy_filter_unmatched (rules : List Bolt3.FRule) (tag : String)
 theorem C04_fn_exact_rule_other_tag (r : Bolt3.FRule) (tag : String) (hp : r.isPrefix = false) (hne : tag ≠ r.tag) :
     r.matchesTag tag = false := by
   simp [Bolt3.FRule.matchesTag, hp, hne]
+
+/-! ## Round 9: the commitment builders and the raw entry point of `channel.rs`, translated with declared externals
+
+`Gen/FnChannelCommit.lean` (targets `translate/fn_targets/ChannelCommit.b04.json`) holds the bodies of
+`ChannelSetup::features`, `Channel::make_channel_parameters`, `make_tx_keys`, `make_counterparty_tx_keys`,
+`make_counterparty_commitment_tx(_with_keys)`, `build_counterparty_commitment_info` and
+`sign_counterparty_commitment_tx` (phase 1), regenerated from the current source on every run.  LDK, the validator,
+the node state and secp are *declared externals* (explicit function parameters); the theorems below quantify over
+**all** of them, so they state what the VLS code itself decides: which parameters, keys, balances and HTLCs go into
+the transaction that is built, and that the signature returned by the raw entry point is the signature of that
+recomposed transaction and of nothing the caller supplied. -/
+
+section Commit
+open Gen.FnChannelCommit
+
+/-- the source's `CommitmentType` (as regenerated in this area) ↦ the model's `CType` -/
+def toCType : CommitmentType → Bolt3.CType
+  | .Legacy => .legacy | .StaticRemoteKey => .staticRemoteKey | .Anchors => .anchors | .AnchorsZeroFeeHtlc => .anchorsZeroFee
+
+/-- `ChannelTypeFeatures::empty()` in the three-bit view -/
+def featuresEmpty : ChannelTypeFeatures := ⟨false, false, false⟩
+
+variable {InMemorySigner Txid DelayedPaymentBasepoint HtlcBasepoint RevocationBasepoint PublicKey Secp256k1
+  EnforcementState ChannelId Transaction PaymentHash Signature Validator Node NodeState BalanceDelta PaymentSummary ChainState
+  TxCreationKeys DirectedChannelTransactionParameters CommitmentTransaction ScriptBuf SecretKey : Type}
+
+/-- `ChannelSetup::features` (current source): static_remote_key always; the zero-fee bit exactly for
+    `AnchorsZeroFeeHtlc`, the non-zero-fee bit exactly for `Anchors` — never both (seed C04-r3-1 set both). -/
+theorem C04_fn_features (s : ChannelSetup Txid DelayedPaymentBasepoint HtlcBasepoint RevocationBasepoint PublicKey) :
+    ChannelSetup.features featuresEmpty s =
+      .ok ⟨true, s.commitment_type == .AnchorsZeroFeeHtlc, s.commitment_type == .Anchors⟩ := by
+  unfold ChannelSetup.features ChannelSetup.is_anchors ChannelSetup.is_zero_fee_htlc featuresEmpty
+  cases s.commitment_type <;> rfl
+
+/-- … and that is the model: LDK's builder looks at `supports_anchors_zero_fee_htlc_tx` (= `CType.isZeroFee`, the
+    switch of `Bolt3.canon`), the decoder at `is_anchors`; for the deprecated `Anchors` they differ (known finding). -/
+theorem C04_fn_features_model (s : ChannelSetup Txid DelayedPaymentBasepoint HtlcBasepoint RevocationBasepoint PublicKey) :
+    ∃ f, ChannelSetup.features featuresEmpty s = .ok f ∧
+      f.anchors_zero_fee_htlc_tx = (toCType s.commitment_type).isZeroFee ∧
+      (f.anchors_zero_fee_htlc_tx || f.anchors_nonzero_fee_htlc_tx) = (toCType s.commitment_type).isAnchors ∧
+      f.static_remote_key = true := by
+  refine ⟨_, C04_fn_features s, ?_, ?_, rfl⟩ <;> (cases s.commitment_type <;> rfl)
+
+/-- `Channel::make_channel_parameters` (current source): which negotiated value goes where.  The *holder's* selected
+    delay and keys stay the holder's, the counterparty's stay the counterparty's; the funding output index is the
+    `vout` truncated to 16 bits; the features are those of `features()`. -/
+theorem C04_fn_make_channel_parameters
+    (pubkeys : InMemorySigner → ChannelPublicKeys DelayedPaymentBasepoint HtlcBasepoint RevocationBasepoint PublicKey)
+    (self : Channel InMemorySigner Txid DelayedPaymentBasepoint HtlcBasepoint RevocationBasepoint PublicKey Secp256k1 EnforcementState ChannelId) :
+    Channel.make_channel_parameters pubkeys featuresEmpty self = .ok
+      { holder_pubkeys := pubkeys self.keys
+        holder_selected_contest_delay := self.setup.holder_selected_contest_delay
+        is_outbound_from_holder := self.setup.is_outbound
+        counterparty_parameters := some { pubkeys := self.setup.counterparty_points,
+                                          selected_contest_delay := self.setup.counterparty_selected_contest_delay }
+        funding_outpoint := some { txid := self.setup.funding_outpoint.txid,
+                                   index := self.setup.funding_outpoint.vout % 65536 }
+        channel_type_features := ⟨true, self.setup.commitment_type == .AnchorsZeroFeeHtlc,
+                                   self.setup.commitment_type == .Anchors⟩ } := by
+  unfold Channel.make_channel_parameters
+  rw [C04_fn_features]
+  rfl
+
+/-- `make_tx_keys`: `a` = broadcaster (delayed, htlc), `b` = countersignatory (revocation, htlc) -/
+theorem C04_fn_make_tx_keys
+    (derive : Secp256k1 → PublicKey → DelayedPaymentBasepoint → HtlcBasepoint → RevocationBasepoint → HtlcBasepoint → TxCreationKeys)
+    (self : Channel InMemorySigner Txid DelayedPaymentBasepoint HtlcBasepoint RevocationBasepoint PublicKey Secp256k1 EnforcementState ChannelId)
+    (pt : PublicKey) (a b : ChannelPublicKeys DelayedPaymentBasepoint HtlcBasepoint RevocationBasepoint PublicKey) :
+    Channel.make_tx_keys derive self pt a b =
+      derive self.secp_ctx pt a.delayed_payment_basepoint a.htlc_basepoint b.revocation_basepoint b.htlc_basepoint := rfl
+
+/-- `make_counterparty_tx_keys`: the broadcaster of a counterparty commitment is the *counterparty*
+    (its delayed and HTLC basepoints), the holder contributes revocation and HTLC basepoints; panics iff the
+    signer has no counterparty keys (channel not readied). -/
+theorem C04_fn_make_counterparty_tx_keys
+    (pubkeys : InMemorySigner → ChannelPublicKeys DelayedPaymentBasepoint HtlcBasepoint RevocationBasepoint PublicKey)
+    (cpkeys : InMemorySigner → Option (ChannelPublicKeys DelayedPaymentBasepoint HtlcBasepoint RevocationBasepoint PublicKey))
+    (derive : Secp256k1 → PublicKey → DelayedPaymentBasepoint → HtlcBasepoint → RevocationBasepoint → HtlcBasepoint → TxCreationKeys)
+    (self : Channel InMemorySigner Txid DelayedPaymentBasepoint HtlcBasepoint RevocationBasepoint PublicKey Secp256k1 EnforcementState ChannelId)
+    (pt : PublicKey) :
+    Channel.make_counterparty_tx_keys pubkeys cpkeys derive self pt =
+      match cpkeys self.keys with
+      | some cp => .ok (derive self.secp_ctx pt cp.delayed_payment_basepoint cp.htlc_basepoint
+                          (pubkeys self.keys).revocation_basepoint (pubkeys self.keys).htlc_basepoint)
+      | none => .error .panic := by
+  unfold Channel.make_counterparty_tx_keys Channel.counterparty_pubkeys
+  cases h : cpkeys self.keys <;> rfl
+
+theorem bind_eq_ok {α β : Type} {x : Rs.M α} {f : α → Rs.M β} {b : β} (h : x >>= f = .ok b) :
+    ∃ a, x = .ok a ∧ f a = .ok b := by
+  cases x with
+  | error e => cases h
+  | ok a => exact ⟨a, rfl, h⟩
+
+/-- `build_counterparty_commitment_info`: `CommitmentInfo2::new(true, to_holder, to_counterparty, …)` — the
+    counterparty is the broadcaster, the holder's value is the *countersigner's*; HTLC lists and feerate pass through. -/
+theorem C04_fn_build_counterparty_commitment_info
+    (mk : Bool → Nat → Nat → List (HTLCInfo2 PaymentHash) → List (HTLCInfo2 PaymentHash) → Nat → CommitmentInfo2 PaymentHash)
+    (self : Channel InMemorySigner Txid DelayedPaymentBasepoint HtlcBasepoint RevocationBasepoint PublicKey Secp256k1 EnforcementState ChannelId)
+    (toHolder toCp : Nat) (off recv : List (HTLCInfo2 PaymentHash)) (feerate : Nat) :
+    Channel.build_counterparty_commitment_info mk self toHolder toCp off recv feerate
+      = .ok (mk true toHolder toCp off recv feerate) := rfl
+
+/-- `make_counterparty_commitment_tx_with_keys` (current source): the one call of LDK's
+    `CommitmentTransaction::new_with_auxiliary_htlc_data`, with
+    * the backwards-counting number `INITIAL_COMMITMENT_NUMBER − n` (overflow-panic iff `n > 2^48 − 1`),
+    * `to_broadcaster := to_counterparty`, `to_countersignatory := to_holder` (in this order),
+    * broadcaster funding key = the counterparty's, countersignatory funding key = the holder's,
+    * every HTLC handed in, in the order given, none dropped or added,
+    * the parameters of `make_channel_parameters`, seen as the counterparty's broadcastable. -/
+theorem C04_fn_make_counterparty_commitment_tx_with_keys
+    (pubkeys : InMemorySigner → ChannelPublicKeys DelayedPaymentBasepoint HtlcBasepoint RevocationBasepoint PublicKey)
+    (cpkeys : InMemorySigner → Option (ChannelPublicKeys DelayedPaymentBasepoint HtlcBasepoint RevocationBasepoint PublicKey))
+    (asCp : ChannelTransactionParameters DelayedPaymentBasepoint HtlcBasepoint RevocationBasepoint PublicKey Txid → DirectedChannelTransactionParameters)
+    (ldkNew : Nat → Nat → Nat → PublicKey → PublicKey → TxCreationKeys → Nat → List (HTLCOutputInCommitment PaymentHash × Unit) → DirectedChannelTransactionParameters → Rs.M CommitmentTransaction)
+    (self : Channel InMemorySigner Txid DelayedPaymentBasepoint HtlcBasepoint RevocationBasepoint PublicKey Secp256k1 EnforcementState ChannelId)
+    (keys : TxCreationKeys) (n feerate toHolder toCp : Nat) (htlcs : List (HTLCOutputInCommitment PaymentHash))
+    (cp : ChannelPublicKeys DelayedPaymentBasepoint HtlcBasepoint RevocationBasepoint PublicKey)
+    (hcp : cpkeys self.keys = some cp) (hn : n ≤ 281474976710655)
+    (params : ChannelTransactionParameters DelayedPaymentBasepoint HtlcBasepoint RevocationBasepoint PublicKey Txid)
+    (hparams : Channel.make_channel_parameters pubkeys featuresEmpty self = .ok params) :
+    Channel.make_counterparty_commitment_tx_with_keys pubkeys featuresEmpty asCp cpkeys ldkNew self keys n feerate toHolder toCp htlcs
+      = ldkNew (281474976710655 - n) toCp toHolder cp.funding_pubkey (pubkeys self.keys).funding_pubkey keys feerate
+          (htlcs.map (fun h => (h, ()))) (asCp params) := by
+  unfold Channel.make_counterparty_commitment_tx_with_keys Channel.counterparty_pubkeys
+  rw [hparams]
+  simp only [Rs.bind_ok, Rs.usub, hn, if_true, Rs.pure_eq, hcp, Rs.unwrap]
+
+theorem C04_fn_make_counterparty_commitment_tx_with_keys_overflow
+    (pubkeys : InMemorySigner → ChannelPublicKeys DelayedPaymentBasepoint HtlcBasepoint RevocationBasepoint PublicKey)
+    (cpkeys : InMemorySigner → Option (ChannelPublicKeys DelayedPaymentBasepoint HtlcBasepoint RevocationBasepoint PublicKey))
+    (asCp : ChannelTransactionParameters DelayedPaymentBasepoint HtlcBasepoint RevocationBasepoint PublicKey Txid → DirectedChannelTransactionParameters)
+    (ldkNew : Nat → Nat → Nat → PublicKey → PublicKey → TxCreationKeys → Nat → List (HTLCOutputInCommitment PaymentHash × Unit) → DirectedChannelTransactionParameters → Rs.M CommitmentTransaction)
+    (self : Channel InMemorySigner Txid DelayedPaymentBasepoint HtlcBasepoint RevocationBasepoint PublicKey Secp256k1 EnforcementState ChannelId)
+    (keys : TxCreationKeys) (n feerate toHolder toCp : Nat) (htlcs : List (HTLCOutputInCommitment PaymentHash))
+    (hn : ¬ n ≤ 281474976710655) :
+    Channel.make_counterparty_commitment_tx_with_keys pubkeys featuresEmpty asCp cpkeys ldkNew self keys n feerate toHolder toCp htlcs
+      = .error .overflow := by
+  unfold Channel.make_counterparty_commitment_tx_with_keys
+  rw [C04_fn_make_channel_parameters]
+  simp only [Rs.bind_ok, Rs.usub, hn, if_false]
+  rfl
+
+/-- `make_counterparty_commitment_tx` = keys of the *request's* per-commitment point, then the builder above -/
+theorem C04_fn_make_counterparty_commitment_tx
+    (pubkeys : InMemorySigner → ChannelPublicKeys DelayedPaymentBasepoint HtlcBasepoint RevocationBasepoint PublicKey)
+    (cpkeys : InMemorySigner → Option (ChannelPublicKeys DelayedPaymentBasepoint HtlcBasepoint RevocationBasepoint PublicKey))
+    (derive : Secp256k1 → PublicKey → DelayedPaymentBasepoint → HtlcBasepoint → RevocationBasepoint → HtlcBasepoint → TxCreationKeys)
+    (asCp : ChannelTransactionParameters DelayedPaymentBasepoint HtlcBasepoint RevocationBasepoint PublicKey Txid → DirectedChannelTransactionParameters)
+    (ldkNew : Nat → Nat → Nat → PublicKey → PublicKey → TxCreationKeys → Nat → List (HTLCOutputInCommitment PaymentHash × Unit) → DirectedChannelTransactionParameters → Rs.M CommitmentTransaction)
+    (self : Channel InMemorySigner Txid DelayedPaymentBasepoint HtlcBasepoint RevocationBasepoint PublicKey Secp256k1 EnforcementState ChannelId)
+    (pt : PublicKey) (n feerate toHolder toCp : Nat) (htlcs : List (HTLCOutputInCommitment PaymentHash))
+    (cp : ChannelPublicKeys DelayedPaymentBasepoint HtlcBasepoint RevocationBasepoint PublicKey)
+    (hcp : cpkeys self.keys = some cp) (hn : n ≤ 281474976710655) :
+    ∃ params, Channel.make_channel_parameters pubkeys featuresEmpty self = .ok params ∧
+    Channel.make_counterparty_commitment_tx pubkeys cpkeys derive featuresEmpty asCp ldkNew self pt n feerate toHolder toCp htlcs
+      = ldkNew (281474976710655 - n) toCp toHolder cp.funding_pubkey (pubkeys self.keys).funding_pubkey
+          (derive self.secp_ctx pt cp.delayed_payment_basepoint cp.htlc_basepoint
+              (pubkeys self.keys).revocation_basepoint (pubkeys self.keys).htlc_basepoint)
+          feerate (htlcs.map (fun h => (h, ()))) (asCp params) := by
+  refine ⟨_, C04_fn_make_channel_parameters pubkeys self, ?_⟩
+  unfold Channel.make_counterparty_commitment_tx
+  rw [C04_fn_make_counterparty_tx_keys, hcp]
+  simp only [Rs.bind_ok]
+  rw [C04_fn_make_counterparty_commitment_tx_with_keys pubkeys cpkeys asCp ldkNew self _ n feerate toHolder toCp htlcs cp hcp hn _
+        (C04_fn_make_channel_parameters pubkeys self)]
+
+/-! ### The raw entry point `Channel::sign_counterparty_commitment_tx` (phase 1), body from the current source -/
+
+section Phase1
+variable [DecidableEq Transaction]
+  (txOutLen : Transaction → Nat) (validator : Validator)
+  (validateChannelValue : Validator → ChannelSetup Txid DelayedPaymentBasepoint HtlcBasepoint RevocationBasepoint PublicKey → Rs.M Unit)
+  (decode : Validator → InMemorySigner → ChannelSetup Txid DelayedPaymentBasepoint HtlcBasepoint RevocationBasepoint PublicKey → Bool → Transaction → List (List Nat) → Rs.M CommitmentInfo)
+  (mkInfo2 : Bool → Nat → Nat → List (HTLCInfo2 PaymentHash) → List (HTLCInfo2 PaymentHash) → Nat → CommitmentInfo2 PaymentHash)
+  (node : Node) (getState : Node → NodeState)
+  (claimable : EnforcementState → NodeState → Option (CommitmentInfo2 PaymentHash) → Option (CommitmentInfo2 PaymentHash) → ChannelSetup Txid DelayedPaymentBasepoint HtlcBasepoint RevocationBasepoint PublicKey → Rs.M BalanceDelta)
+  (incoming : EnforcementState → Option (CommitmentInfo2 PaymentHash) → Option (CommitmentInfo2 PaymentHash) → PaymentSummary)
+  (chainState : ChainState)
+  (validateCp : Validator → EnforcementState → Nat → PublicKey → ChannelSetup Txid DelayedPaymentBasepoint HtlcBasepoint RevocationBasepoint PublicKey → ChainState → CommitmentInfo2 PaymentHash → Rs.M Unit)
+  (pubkeys : InMemorySigner → ChannelPublicKeys DelayedPaymentBasepoint HtlcBasepoint RevocationBasepoint PublicKey)
+  (cpkeys : InMemorySigner → Option (ChannelPublicKeys DelayedPaymentBasepoint HtlcBasepoint RevocationBasepoint PublicKey))
+  (derive : Secp256k1 → PublicKey → DelayedPaymentBasepoint → HtlcBasepoint → RevocationBasepoint → HtlcBasepoint → TxCreationKeys)
+  (asCp : ChannelTransactionParameters DelayedPaymentBasepoint HtlcBasepoint RevocationBasepoint PublicKey Txid → DirectedChannelTransactionParameters)
+  (ldkNew : Nat → Nat → Nat → PublicKey → PublicKey → TxCreationKeys → Nat → List (HTLCOutputInCommitment PaymentHash × Unit) → DirectedChannelTransactionParameters → Rs.M CommitmentTransaction)
+  (builtTx : CommitmentTransaction → Transaction)
+  (filterErr : String → Bool)
+  (numOf : CommitmentTransaction → Nat) (pointOf : CommitmentTransaction → PublicKey)
+  (redeem : PublicKey → PublicKey → ScriptBuf) (fundingKey : InMemorySigner → SecretKey)
+  (sign : CommitmentTransaction → SecretKey → ScriptBuf → Nat → Rs.M Signature)
+  (outgoing : EnforcementState → Option (CommitmentInfo2 PaymentHash) → Option (CommitmentInfo2 PaymentHash) → PaymentSummary)
+  (validatePayments : NodeState → ChannelId → PaymentSummary → PaymentSummary → BalanceDelta → Validator → Rs.M Unit)
+  (setNext : Validator → EnforcementState → Nat → PublicKey → CommitmentInfo2 PaymentHash → Rs.M EnforcementState)
+  (persist : Rs.M Unit)
+
+/-- the generated phase 1 with the externals of this section -/
+abbrev phase1Gen
+    (self : Channel InMemorySigner Txid DelayedPaymentBasepoint HtlcBasepoint RevocationBasepoint PublicKey Secp256k1 EnforcementState ChannelId)
+    (tx : Transaction) (ws : List (List Nat)) (pt : PublicKey) (n feerate : Nat)
+    (off recv : List (HTLCInfo2 PaymentHash)) :=
+  Channel.sign_counterparty_commitment_tx txOutLen validator validateChannelValue decode mkInfo2 node getState claimable incoming
+    chainState validateCp pubkeys cpkeys derive featuresEmpty asCp ldkNew builtTx filterErr numOf pointOf redeem fundingKey sign
+    outgoing validatePayments setNext persist self tx ws pt n feerate off recv
+
+/-- **What the raw entry point signs** (proved on the body regenerated from `channel.rs`, for every validator,
+    LDK, node state and secp behind the declared externals).  If `sign_counterparty_commitment_tx` returns a
+    signature, then
+    * the supplied transaction was decoded (`info`) and only its two *balances* are taken from it; HTLCs and feerate
+      come from the request's arguments; the content `info2` is `CommitmentInfo2::new(true, …)` of these;
+    * that very content passed `validate_counterparty_commitment_tx` for the request's number and point;
+    * `rtx` is `make_counterparty_commitment_tx` of the **content** (countersigner value as `to_holder`, broadcaster value
+      as `to_counterparty`, the HTLCs of `htlcs_info2_to_oic info2`) — by the theorems above: of the channel's own
+      parameters, keys and funding outpoint;
+    * the signature is LDK's `sign_counterparty_commitment` of `rtx` under the channel's **own funding key**, the
+      2-of-2 redeem script of the two funding keys and the negotiated channel value: the supplied `tx` does not occur;
+    * if the policy filter keeps `policy-commitment` an error, the supplied transaction **equals** the built one;
+    * the new enforcement state is `set_next_counterparty_commit_num(INITIAL − number_of(rtx) + 1, point_of(rtx), info2)`. -/
+theorem C04_fn_phase1_signs_recomposed
+    (self self' : Channel InMemorySigner Txid DelayedPaymentBasepoint HtlcBasepoint RevocationBasepoint PublicKey Secp256k1 EnforcementState ChannelId)
+    (tx : Transaction) (ws : List (List Nat)) (pt : PublicKey) (n feerate : Nat)
+    (off recv : List (HTLCInfo2 PaymentHash)) (sig : Signature)
+    (h : phase1Gen txOutLen validator validateChannelValue decode mkInfo2 node getState claimable incoming chainState validateCp
+           pubkeys cpkeys derive asCp ldkNew builtTx filterErr numOf pointOf redeem fundingKey sign outgoing
+           validatePayments setNext persist self tx ws pt n feerate off recv = .ok (self', sig)) :
+    ∃ info htlcs rtx es',
+      txOutLen tx = ws.length ∧
+      decode validator self.keys self.setup true tx ws = .ok info ∧
+      let info2 := mkInfo2 true info.to_countersigner_value_sat info.to_broadcaster_value_sat off recv feerate
+      validateCp validator self.enforcement_state n pt self.setup chainState info2 = .ok () ∧
+      Channel.htlcs_info2_to_oic info2.offered_htlcs info2.received_htlcs = .ok htlcs ∧
+      Channel.make_counterparty_commitment_tx pubkeys cpkeys derive featuresEmpty asCp ldkNew self pt n feerate
+          info2.to_countersigner_value_sat info2.to_broadcaster_value_sat htlcs = .ok rtx ∧
+      sign rtx (fundingKey self.keys)
+          (redeem (pubkeys self.keys).funding_pubkey self.setup.counterparty_points.funding_pubkey)
+          self.setup.channel_value_sat = .ok sig ∧
+      (filterErr "policy-commitment" = true → builtTx rtx = tx) ∧
+      numOf rtx ≤ 281474976710655 ∧
+      setNext validator self.enforcement_state (281474976710655 - numOf rtx + 1) (pointOf rtx) info2 = .ok es' ∧
+      self' = { self with enforcement_state := es' } := by
+  unfold phase1Gen Channel.sign_counterparty_commitment_tx at h
+  split at h
+  · cases h
+  · rename_i hlen
+    obtain ⟨_, _, h⟩ := bind_eq_ok h
+    obtain ⟨info, hinfo, h⟩ := bind_eq_ok h
+    obtain ⟨info2, hinfo2, h⟩ := bind_eq_ok h
+    cases hinfo2
+    obtain ⟨delta, _, h⟩ := bind_eq_ok h
+    obtain ⟨u, hval, h⟩ := bind_eq_ok h
+    obtain ⟨htlcs, hoic, h⟩ := bind_eq_ok h
+    obtain ⟨rtx, hrtx, h⟩ := bind_eq_ok h
+    by_cases hb : (builtTx rtx != tx) = true
+    case' pos =>
+      simp only [hb, ↓reduceIte] at h
+      obtain ⟨_, hpe, h⟩ := bind_eq_ok h
+      have himp : filterErr "policy-commitment" = true → builtTx rtx = tx := by
+        intro hf; simp [Rs.policyErr, hf, Rs.fail] at hpe
+    case' neg =>
+      simp only [hb, ↓reduceIte] at h
+      have himp : filterErr "policy-commitment" = true → builtTx rtx = tx := fun _ => by simpa using hb
+    all_goals
+      obtain ⟨cn, hcn, h⟩ := bind_eq_ok h
+      obtain ⟨sg, hsig, h⟩ := bind_eq_ok h
+      obtain ⟨_, _, h⟩ := bind_eq_ok h
+      obtain ⟨cn1, hcn1, h⟩ := bind_eq_ok h
+      obtain ⟨es', hes, h⟩ := bind_eq_ok h
+      obtain ⟨_, _, h⟩ := bind_eq_ok h
+      have hle : numOf rtx ≤ 281474976710655 := by
+        unfold Rs.usub at hcn; split at hcn
+        · assumption
+        · cases hcn
+      have hcnv : cn = 281474976710655 - numOf rtx := by
+        unfold Rs.usub at hcn; rw [if_pos hle] at hcn; cases hcn; rfl
+      have hcn1v : cn1 = cn + 1 := by
+        unfold Rs.uadd at hcn1; split at hcn1
+        · cases hcn1; rfl
+        · cases hcn1
+      cases h
+      refine ⟨info, htlcs, rtx, es', ?_, hinfo, ?_, hoic, hrtx, hsig, himp, hle, ?_, rfl⟩
+      · simpa using hlen
+      · cases u; exact hval
+      · rw [← hcnv, ← hcn1v]; exact hes
+
+/-! Non-vacuity of `C04_fn_phase1_signs_recomposed`: a toy instance of the externals (every opaque type `Nat`, a
+    "commitment transaction" = the list of its output values, LDK's builder = `[to_broadcaster, to_countersignatory] ++
+    HTLC amounts`) on which the regenerated phase 1 accepts the canonical transaction and — under a strict filter —
+    refuses the same transaction with one output value changed. -/
+section NonVacuity
+private def toyChan : Channel Nat Nat Nat Nat Nat Nat Nat Nat Nat :=
+  { secp_ctx := 0, keys := 5, enforcement_state := 0, id0 := 0,
+    setup := { is_outbound := true, channel_value_sat := 1000, funding_outpoint := ⟨7, 65537⟩,
+               holder_selected_contest_delay := 6, counterparty_points := ⟨1, 2, 3, 4⟩,
+               counterparty_selected_contest_delay := 7, commitment_type := .AnchorsZeroFeeHtlc } }
+
+private def toyPhase1 (strict : Bool) (tx : List Nat) :=
+  phase1Gen (Validator := Nat) (Node := Nat) (NodeState := Nat) (BalanceDelta := Nat) (PaymentSummary := Nat)
+    (ChainState := Nat) (TxCreationKeys := Nat) (DirectedChannelTransactionParameters := Nat)
+    (CommitmentTransaction := List Nat) (Transaction := List Nat) (ScriptBuf := Nat) (SecretKey := Nat) (Signature := Nat) (PaymentHash := Nat)
+    List.length 0 (fun _ _ => .ok ()) (fun _ _ _ _ _ _ => .ok ⟨10, 20⟩) (fun _ a b o r _ => ⟨a, b, o, r⟩) 0 id
+    (fun _ _ _ _ _ => .ok 0) (fun _ _ _ => 0) 0 (fun _ _ _ _ _ _ _ => .ok ())
+    (fun k => ⟨k, k + 1, k + 2, k + 3⟩) (fun _ => some ⟨1, 2, 3, 4⟩) (fun _ pt a b c d => pt + a + b + c + d) (fun _ => 0)
+    (fun _ tb tc _ _ _ _ hs _ => .ok ([tb, tc] ++ hs.map (·.1.amount_msat))) id (fun _ => strict)
+    (fun _ => 281474976710655 - 42) (fun _ => 9) (fun a b => a + b) (fun k => k + 100)
+    (fun rtx k sc v => .ok (rtx.sum + k + sc + v)) (fun _ _ _ => 0) (fun _ _ _ _ _ _ => .ok ())
+    (fun _ _ n _ _ => .ok n) (.ok ()) toyChan tx [[], [], []] 9 42 253 [⟨3, 7, 9⟩] []
+
+example : (toyPhase1 true [20, 10, 3000]).toOption.map (fun r => (r.1.enforcement_state, r.2)) = some (43, 4141) := by decide
+example : toyPhase1 true [20, 10, 3001] = .error (.err "policy-commitment") := rfl
+/-- with the tag demoted the mutated transaction is let through — and the signature is the *same* one, over the
+    recomposed transaction (4141), not over what the caller supplied -/
+example : (toyPhase1 false [20, 10, 3001]).toOption.map (·.2) = some 4141 := by decide
+end NonVacuity
+
+/-! ### The semantic entry point `sign_counterparty_commitment_tx_phase2`, body from the current source -/
+
+/-- the generated phase 2 with the externals of this section (`ldkSign` = LDK's
+    `InMemorySigner::sign_counterparty_commitment`: commitment signature and HTLC signatures of the built transaction) -/
+abbrev phase2Gen (ldkSign : InMemorySigner → CommitmentTransaction → Rs.M (Signature × List Signature))
+    (self : Channel InMemorySigner Txid DelayedPaymentBasepoint HtlcBasepoint RevocationBasepoint PublicKey Secp256k1 EnforcementState ChannelId)
+    (pt : PublicKey) (n feerate toHolder toCp : Nat) (off recv : List (HTLCInfo2 PaymentHash)) :=
+  Channel.sign_counterparty_commitment_tx_phase2 validator validateChannelValue mkInfo2 node getState claimable incoming
+    chainState validateCp pubkeys cpkeys derive featuresEmpty asCp ldkNew ldkSign outgoing validatePayments setNext persist
+    self pt n feerate toHolder toCp off recv
+
+/-- **What the semantic entry point signs.**  If phase 2 returns signatures then the content
+    `CommitmentInfo2::new(true, to_holder, to_counterparty, offered, received, feerate)` passed
+    `validate_counterparty_commitment_tx` for the request's number and point, and the signatures are LDK's for
+    `make_counterparty_commitment_tx` of **exactly the request's values** — balances as given, every HTLC of the two
+    argument lists (offered first), none trimmed, merged or added; the recorded state is `(n + 1, point, content)`. -/
+theorem C04_fn_phase2_signs_built
+    (ldkSign : InMemorySigner → CommitmentTransaction → Rs.M (Signature × List Signature))
+    (self self' : Channel InMemorySigner Txid DelayedPaymentBasepoint HtlcBasepoint RevocationBasepoint PublicKey Secp256k1 EnforcementState ChannelId)
+    (pt : PublicKey) (n feerate toHolder toCp : Nat) (off recv : List (HTLCInfo2 PaymentHash))
+    (sig : Signature) (hsigs : List Signature)
+    (h : phase2Gen validator validateChannelValue mkInfo2 node getState claimable incoming chainState validateCp
+           pubkeys cpkeys derive asCp ldkNew outgoing validatePayments setNext persist ldkSign
+           self pt n feerate toHolder toCp off recv = .ok (self', (sig, hsigs))) :
+    ∃ htlcs rtx es',
+      let info2 := mkInfo2 true toHolder toCp off recv feerate
+      validateCp validator self.enforcement_state n pt self.setup chainState info2 = .ok () ∧
+      Channel.htlcs_info2_to_oic off recv = .ok htlcs ∧
+      Channel.make_counterparty_commitment_tx pubkeys cpkeys derive featuresEmpty asCp ldkNew self pt n feerate
+          toHolder toCp htlcs = .ok rtx ∧
+      ldkSign self.keys rtx = .ok (sig, hsigs) ∧
+      setNext validator self.enforcement_state (n + 1) pt info2 = .ok es' ∧
+      self' = { self with enforcement_state := es' } := by
+  unfold phase2Gen Channel.sign_counterparty_commitment_tx_phase2 at h
+  obtain ⟨_, _, h⟩ := bind_eq_ok h
+  obtain ⟨info2, hinfo2, h⟩ := bind_eq_ok h
+  cases hinfo2
+  obtain ⟨delta, _, h⟩ := bind_eq_ok h
+  obtain ⟨u, hval, h⟩ := bind_eq_ok h
+  obtain ⟨htlcs, hoic, h⟩ := bind_eq_ok h
+  obtain ⟨rtx, hrtx, h⟩ := bind_eq_ok h
+  obtain ⟨⟨sg, hs⟩, hsig, h⟩ := bind_eq_ok h
+  obtain ⟨_, _, h⟩ := bind_eq_ok h
+  obtain ⟨n1, hn1, h⟩ := bind_eq_ok h
+  obtain ⟨es', hes, h⟩ := bind_eq_ok h
+  obtain ⟨_, _, h⟩ := bind_eq_ok h
+  have hn1v : n1 = n + 1 := by
+    unfold Rs.uadd at hn1; split at hn1
+    · cases hn1; rfl
+    · cases hn1
+  cases h
+  refine ⟨htlcs, rtx, es', ?_, hoic, hrtx, hsig, ?_, rfl⟩
+  · cases u; exact hval
+  · rw [← hn1v]; exact hes
+
+/-- **Both entry points build the same transaction for the same content** (generated bodies, all externals).
+    Phase 2 accepted `(toHolder, toCp, off, recv)`.  If the raw entry point, given *any* transaction that decodes
+    to these two balances, gets as far as building, it builds with the request's own number, point and feerate the
+    transaction of `oic(sorted lists)` where phase 2 built that of `oic(lists as given)`: the two coincide exactly when
+    LDK's builder does not depend on the order of the HTLC arguments — which is `Bolt3.canon_congr`
+    (`C04_phase_agree`) in the model.  Here: when `CommitmentInfo2::new` leaves the lists as they are (already sorted
+    arguments), the two built transactions are *equal*. -/
+theorem C04_fn_phases_build_same
+    (self : Channel InMemorySigner Txid DelayedPaymentBasepoint HtlcBasepoint RevocationBasepoint PublicKey Secp256k1 EnforcementState ChannelId)
+    (pt : PublicKey) (n feerate toHolder toCp : Nat) (off recv : List (HTLCInfo2 PaymentHash))
+    (hsorted : (mkInfo2 true toHolder toCp off recv feerate).offered_htlcs = off ∧
+               (mkInfo2 true toHolder toCp off recv feerate).received_htlcs = recv)
+    (hbal : (mkInfo2 true toHolder toCp off recv feerate).to_countersigner_value_sat = toHolder ∧
+            (mkInfo2 true toHolder toCp off recv feerate).to_broadcaster_value_sat = toCp) :
+    let info2 := mkInfo2 true toHolder toCp off recv feerate
+    (Channel.htlcs_info2_to_oic info2.offered_htlcs info2.received_htlcs >>= fun htlcs =>
+      Channel.make_counterparty_commitment_tx pubkeys cpkeys derive featuresEmpty asCp ldkNew self pt n feerate
+        info2.to_countersigner_value_sat info2.to_broadcaster_value_sat htlcs)
+    = (Channel.htlcs_info2_to_oic off recv >>= fun htlcs =>
+      Channel.make_counterparty_commitment_tx pubkeys cpkeys derive featuresEmpty asCp ldkNew self pt n feerate
+        toHolder toCp htlcs) := by
+  simp only [hsorted.1, hsorted.2, hbal.1, hbal.2]
+
+/-! ### The raw second-stage entry point `sign_counterparty_htlc_tx` → `sign_htlc_tx`, bodies from the current source -/
+
+section HtlcRaw
+variable {EcdsaSighashType SegwitV0Sighash Message : Type}
+  (decodeHtlc : Validator → Bool → ChannelSetup Txid DelayedPaymentBasepoint HtlcBasepoint RevocationBasepoint PublicKey →
+      TxCreationKeys → Transaction → ScriptBuf → Nat → ScriptBuf →
+      Rs.M (Nat × HTLCOutputInCommitment PaymentHash × SegwitV0Sighash × EcdsaSighashType))
+  (validateHtlc : Validator → ChannelSetup Txid DelayedPaymentBasepoint HtlcBasepoint RevocationBasepoint PublicKey →
+      ChainState → Bool → HTLCOutputInCommitment PaymentHash → Nat → Rs.M Unit)
+  (htlcBaseKey : InMemorySigner → SecretKey) (derivePriv : Secp256k1 → PublicKey → SecretKey → SecretKey)
+  (msgOf : SegwitV0Sighash → Message) (ecdsa : Secp256k1 → Message → SecretKey → Signature)
+
+/-- **What the raw HTLC entry point signs** (generated bodies, all externals).  If `sign_counterparty_htlc_tx` returns
+    a signature then the validator decoded the supplied second-stage transaction under the `TxCreationKeys` of the
+    **request's** per-commitment point (counterparty = broadcaster) and handed back `(feerate, htlc, sighash, type)`;
+    the signature is ECDSA over *that* sighash — the one `decode_and_validate_htlc_tx` recomposed (C09's
+    `C09_fn_decode_and_validate_htlc_tx`), never one computed here from the supplied `tx` — under the channel's own HTLC
+    base key tweaked by the **request's** point (nothing cached in the enforcement state: seed C04-r6-1), with the
+    sighash type the validator returned. -/
+theorem C04_fn_htlc_raw_key_and_sighash
+    (self : Channel InMemorySigner Txid DelayedPaymentBasepoint HtlcBasepoint RevocationBasepoint PublicKey Secp256k1 EnforcementState ChannelId)
+    (tx : Transaction) (pt : PublicKey) (redeemscript ws : ScriptBuf) (amount : Nat)
+    (ts : TypedSignature Signature EcdsaSighashType)
+    (h : Channel.sign_counterparty_htlc_tx pubkeys cpkeys derive validator decodeHtlc chainState validateHtlc htlcBaseKey
+           derivePriv msgOf ecdsa self tx pt redeemscript amount ws = .ok ts) :
+    ∃ cp feerate htlc sighash ty,
+      cpkeys self.keys = some cp ∧
+      decodeHtlc validator true self.setup
+          (derive self.secp_ctx pt cp.delayed_payment_basepoint cp.htlc_basepoint
+              (pubkeys self.keys).revocation_basepoint (pubkeys self.keys).htlc_basepoint)
+          tx redeemscript amount ws = .ok (feerate, htlc, sighash, ty) ∧
+      validateHtlc validator self.setup chainState true htlc feerate = .ok () ∧
+      ts = { sig := ecdsa self.secp_ctx (msgOf sighash) (derivePriv self.secp_ctx pt (htlcBaseKey self.keys)), typ := ty } := by
+  unfold Channel.sign_counterparty_htlc_tx at h
+  rw [C04_fn_make_counterparty_tx_keys] at h
+  cases hcp : cpkeys self.keys with
+  | none => rw [hcp] at h; cases h
+  | some cp =>
+    rw [hcp] at h
+    simp only [Rs.bind_ok] at h
+    unfold Channel.sign_htlc_tx at h
+    obtain ⟨⟨feerate, htlc, sighash, ty⟩, hdec, h⟩ := bind_eq_ok h
+    obtain ⟨u, hval, h⟩ := bind_eq_ok h
+    cases h
+    exact ⟨cp, feerate, htlc, sighash, ty, rfl, hdec, by cases u; exact hval, rfl⟩
+
+end HtlcRaw
+
+end Phase1
+
+end Commit
+
+/-! ## Round 9: `SimpleValidator::decode_commitment_tx` (the loop around `handle_output`), body from the current source -/
+
+section Decode
+
+theorem foldlM_range_zip_aux {σ α β : Type} (f : σ → α → β → Rs.M σ) :
+    ∀ (xs : List α) (ys : List β) (px : List α) (py : List β) (s : σ),
+      xs.length = ys.length → px.length = py.length →
+      List.foldlM (fun s i => do
+          let x ← Rs.index (px ++ xs) i
+          let y ← Rs.index (py ++ ys) i
+          f s x y) s (List.range' px.length xs.length)
+      = List.foldlM (fun s (p : α × β) => f s p.1 p.2) s (xs.zip ys) := by
+  intro xs
+  induction xs with
+  | nil => intro ys px py s h _; cases ys <;> simp_all
+  | cons x xs ih =>
+    intro ys px py s h hp
+    cases ys with
+    | nil => simp at h
+    | cons y ys =>
+      have hx : Rs.index (px ++ x :: xs) px.length = .ok x := by simp [Rs.index]
+      have hy : Rs.index (py ++ y :: ys) px.length = .ok y := by simp [Rs.index, hp]
+      simp only [List.length_cons, List.range'_succ, List.foldlM_cons, List.zip_cons_cons, hx, hy, Rs.bind_ok]
+      congr 1
+      funext s'
+      have h' : xs.length = ys.length := by simpa using h
+      have := ih ys (px ++ [x]) (py ++ [y]) s' h' (by simp [hp])
+      simpa [List.append_assoc] using this
+
+theorem bind_ok_id {α : Type} (x : Rs.M α) : (x >>= fun t => (Except.ok t : Rs.M α)) = x := by
+  cases x <;> rfl
+
+/-- a loop `for i in 0..xs.len() { s = f(s, xs[i], ys[i])? }` over two equally long vectors is the fold over their zip -/
+theorem foldlM_range_zip {σ α β : Type} (f : σ → α → β → Rs.M σ) (xs : List α) (ys : List β) (s : σ)
+    (h : xs.length = ys.length) :
+    List.foldlM (fun s i => do
+        let x ← Rs.index xs i
+        let y ← Rs.index ys i
+        f s x y) s (Rs.range 0 xs.length)
+    = List.foldlM (fun s (p : α × β) => f s p.1 p.2) s (xs.zip ys) := by
+  have := foldlM_range_zip_aux f xs ys [] [] s h rfl
+  simpa [Rs.range] using this
+
+open Gen.FnSimpleDecode in
+/-- `decode_commitment_tx` (current source): the version test — `policy-commitment-version`, the one *filterable*
+    check of the decoder — then the outputs **in order, output `i` with witness script `i`**, folded through
+    `handle_output` from `CommitmentInfo::new(is_counterparty)`; nothing else is read from the transaction (inputs,
+    locktime, sequence are left to the equality test of the caller).  This is the shape of `Bolt3.decode`
+    (`version = 2`, then `decodeOuts` over the zipped outputs); `handle_output` itself is tied by `C04_gen_classify`. -/
+theorem C04_fn_decode_commitment_tx {InMemorySigner ChannelSetup TxOut CommitmentInfo : Type}
+    (filterErr : String → Bool) (mk : Bool → CommitmentInfo)
+    (handle : CommitmentInfo → InMemorySigner → ChannelSetup → TxOut → List Nat → Rs.M CommitmentInfo)
+    (v : SimpleValidator) (keys : InMemorySigner) (setup : ChannelSetup) (isCp : Bool)
+    (tx : Transaction TxOut) (ws : List (List Nat)) (hlen : tx.output.length = ws.length) :
+    SimpleValidator.decode_commitment_tx filterErr mk handle v keys setup isCp tx ws =
+      if tx.version ≠ 2 ∧ filterErr "policy-commitment-version" = true then .error (.err "policy-commitment-version")
+      else List.foldlM (fun info (p : TxOut × List Nat) => handle info keys setup p.1 p.2) (mk isCp) (tx.output.zip ws) := by
+  unfold SimpleValidator.decode_commitment_tx
+  have hfold := foldlM_range_zip (fun info o w => handle info keys setup o w) tx.output ws (mk isCp) hlen
+  by_cases hv : tx.version = 2
+  · simp only [hv, bne_self_eq_false, Bool.false_eq_true, if_false, Rs.bind_ok, Rs.pure_eq, ne_eq, not_true_eq_false, false_and]
+    rw [← hfold]
+    simp only [bind_ok_id]
+  · have hb : (tx.version != (2 : Int)) = true := by simpa using hv
+    by_cases hf : filterErr "policy-commitment-version" = true
+    · simp [hb, hf, hv, Rs.policyErr, Rs.fail]
+    · simp only [hb, if_true, Rs.policyErr, hf, Bool.false_eq_true, if_false, Rs.bind_ok, Rs.pure_eq, ne_eq, hv, not_false_eq_true, and_false]
+      rw [← hfold]
+      simp only [bind_ok_id]
+
+/-- a missing witness script is a panic (`output_witscripts[ind]`), not a refusal — the callers test the lengths first
+    (`len(tx.output) != len(witscripts)` in `C04_fn_phase1_signs_recomposed`) -/
+example : Gen.FnSimpleDecode.SimpleValidator.decode_commitment_tx (fun _ => true) (fun _ => (0 : Nat))
+    (fun i (_ _ : Unit) (o : Nat) w => .ok (i + o + w.length)) ⟨⟩ () () true ⟨2, [5, 7]⟩ [[1]] = .error .panic := rfl
+example : Gen.FnSimpleDecode.SimpleValidator.decode_commitment_tx (fun _ => true) (fun _ => (0 : Nat))
+    (fun i (_ _ : Unit) (o : Nat) w => .ok (i + o + w.length)) ⟨⟩ () () true ⟨2, [5, 7]⟩ [[1], [1, 1]] = .ok 15 := rfl
+
+end Decode
+
+/-! ## Round 9: `CommitmentInfo2::new` (tx.rs), body from the current source; `Vec::sort` is the declared external -/
+
+section Info2
+open Gen.FnTxInfo2
+
+/-- `CommitmentInfo2::new` (current source): both HTLC lists go through the *same* sort, each into its own field;
+    the broadcaster flag, the two balances and the feerate are stored as given. -/
+theorem C04_fn_commitment_info2_new (sort : List HTLCInfo2 → List HTLCInfo2) (isCp : Bool) (toCs toBc : Nat)
+    (off recv : List HTLCInfo2) (feerate : Nat) :
+    CommitmentInfo2.new sort isCp toCs toBc off recv feerate = ⟨isCp, toCs, toBc, sort off, sort recv, feerate⟩ := rfl
+
+/-- … which is the model's `Info2.mk'` (`isort Htlc.le` on both lists) for every reading `abs` of the source's HTLC
+    values as model HTLCs under which the source's sort is the model's (`Htlc.le` = `impl Ord for HTLCInfo2`:
+    `C04_gen_htlc_order`; the algorithm does not matter: `isort_eq_of_perm`).  (No translated function of `tx.rs` reads the
+    three fields of `HTLCInfo2` — `cmp` is outside the subset — so the generated `HTLCInfo2` carries no field and the
+    element reading stays a parameter.) -/
+theorem C04_fn_commitment_info2_new_model (sort : List HTLCInfo2 → List HTLCInfo2) (abs : List HTLCInfo2 → List Bolt3.Htlc)
+    (habs : ∀ l, abs (sort l) = Bolt3.isort Bolt3.Htlc.le (abs l))
+    (toCs toBc : Nat) (off recv : List HTLCInfo2) (feerate : Nat) :
+    let g := CommitmentInfo2.new sort true toCs toBc off recv feerate
+    (⟨g.to_countersigner_value_sat, g.to_broadcaster_value_sat, abs g.offered_htlcs, abs g.received_htlcs, g.feerate_per_kw⟩ : Bolt3.Info2)
+      = Bolt3.Info2.mk' toCs toBc (abs off) (abs recv) feerate := by
+  simp only [C04_fn_commitment_info2_new, habs, Bolt3.Info2.mk']
+
+end Info2
 
 end VlsModel.Props.C04Fn
